@@ -121,7 +121,7 @@ def run_case(ctx, P, stream, idx):
     parse_arg = r.choice((pk, "infer"))
     tpl = r.choice(TEMPLATES)
     infer_imports = r.random() < 0.5
-    with_prepend = r.random() < 0.25
+    with_prepend = r.random() < 0.3
     existing = r.random() < 0.2
     src, irs, in_name = gen_inputs(r, pk)
     out_name = "out.json" if ek == "json_schema" else "out.py"
@@ -134,9 +134,11 @@ def run_case(ctx, P, stream, idx):
         if infer_imports:
             argv.append("--emit-and-infer-imports")
         if with_prepend:
+            future = "from __future__ import annotations\n" if r.random() < 0.5 else ""
             with open(os.path.join(d, "imports_src.py"), "w") as f:
-                f.write("import os\nfrom typing import Optional, Literal\n\nX = 1\n")
-            argv += ["--prepend", "PREPENDED = True\n", "--imports-from-file", "imports_src.py"]
+                f.write(future + "import os\nfrom typing import Optional, Literal\n\nX = 1\n")
+            argv += ["--prepend", r.choice(("PREPENDED = True\n", "import sys\n", "from __future__ import division\nimport sys\n")),
+                     "--imports-from-file", "imports_src.py"]
         sentinel = "# pre-existing content, must survive\nKEEP = %d\n" % r.randint(0, 999)
         if existing:
             with open(os.path.join(d, out_name), "w") as f:
